@@ -3,7 +3,7 @@
    followed by Print Assumptions. *)
 From Coq Require Import ZArith QArith Qabs Reals List Bool Lia Floats.SpecFloat.
 From Flocq Require Import Core.Zaux Core.Raux Core.Defs Core.Generic_fmt Core.Round_NE Core.Ulp Core.FLT IEEE754.BinarySingleNaN.
-From NV Require Import C02.Model C02.Tables C02.Lemmas C02.ModelQ C02.LemmasQ C02.ModelF C02.LemmasF C02.LemmasFW C02.LemmasFN C02.LemmasFR C02.LemmasFG.
+From NV Require Import C02.Model C02.Tables C02.Lemmas C02.ModelQ C02.LemmasQ C02.ModelF C02.LemmasF C02.LemmasFW C02.LemmasFN C02.LemmasFR C02.LemmasFG C02.LemmasFA.
 Import ListNotations.
 Open Scope Z_scope.
 
@@ -394,6 +394,81 @@ Theorem C02_setter_rounding : forall S, is_finite (sf2b K80 S) = true ->
 Proof. exact setter_rounding. Qed.
 Print Assumptions C02_setter_rounding.
 
+(* ---------------------------------------------------------------- the lift to whole arrays *)
+
+(* C02_array_lift: array_to_file on a float64 array with float32 slope s <> 0 and intercept i,
+   finite thresholds mn, mx whose scaled values do not overflow (guard): the model's choice
+   function best_write_scale_ftype keeps binary64; either only zeros are written (thresholds
+   (0,0)) or the clip bounds are q_mn, q_mx of post_bounds_f and every stored integer is the
+   cast of elem_f in binary64; every guarded element inside [q_mn, q_mx] is stored as
+   k = rint(RN(RN(x - i)/s)) with a value-preserving cast and reloads as RN(RN(k*s) + i) *)
+Theorem C02_array_lift : forall slope inter,
+  is_finite_strict (sf2b K32 slope) = true -> is_finite (sf2b K32 inter) = true ->
+  let s := B2R (sf2b K32 slope) in
+  let i := B2R (sf2b K32 inter) in
+  let sl := fconv K64 slope in
+  let it := fconv K64 inter in
+  forall xs tout mn mx sk ik n2z o t',
+  In tout all_itys -> fin K64 mn -> fin K64 mx -> guard s i mn -> guard s i mx ->
+  array_to_file (InF K64 xs) tout slope inter sk ik (Some (NF K64 mn, NF K64 mx)) n2z = Ok o ->
+  o_raw o = repeat 0 (length xs)
+  \/ exists q_mn q_mx nf,
+       o_raw o = map (fun x => fst (cast_to_int K64 tout (elem_f K64 sl it q_mn q_mx nf (fconv K64 x)))) xs
+       /\ forall x, fin K64 x -> guard s i x ->
+            let y := frint K64 (scale_w K64 sl it (fconv K64 x)) in
+            fle K64 q_mn y = true -> fle K64 y q_mx = true ->
+            let k := ZnearestE (RN64 (RN64 (B2R (sf2b K64 x) - i) / s)) in
+            let r := snd (read_elem t' K64 sl it k) in
+            cast_to_int K64 tout (elem_f K64 sl it q_mn q_mx nf (fconv K64 x)) = (k, false)
+            /\ fin K64 r /\ B2R (sf2b K64 r) = RN64 (RN64 (IZR k * s) + i).
+Proof. exact atf_K64. Qed.
+Print Assumptions C02_array_lift.
+
+(* C02_array_gap_slope_only: the SPM path (SlopeArrayWriter through writer_write) on a whole
+   float64 array, hypotheses on the INPUT ARRAY: its finite range (mn, mx) is finite, and
+   |x/s| <= 2^52 for mn, mx and the element considered, s being the slope the code stores
+   (C02_setter_rounding bounds s against the ideal slope max/omax for normal slopes, which gives
+   |x/s| <= omax * (1 + 2^-23) -- that last derivation is not yet formal).  Either only zeros are
+   written or every element inside the clip range is stored as k = rint(RN(x/s)) with a
+   value-preserving cast and reloads within |s|/2 + |x|*2^-52 + |s|*2^-52 of x. *)
+Theorem C02_array_gap_slope_only : forall xs tout sc o t' mn mx hn,
+  In tout all_itys ->
+  finite_range_f K64 xs = (mn, mx, hn) -> fin K64 mn -> fin K64 mx ->
+  writer_write WSlope (InF K64 xs) tout = Ok (sc, o) ->
+  let s := B2R (sf2b K32 (s_slope sc)) in
+  (Rabs (B2R (sf2b K64 mn) / s) <= bpow radix2 52)%R -> (Rabs (B2R (sf2b K64 mx) / s) <= bpow radix2 52)%R ->
+  o_raw o = repeat 0 (length xs)
+  \/ exists q_mn q_mx nf,
+       o_raw o = map (fun x => fst (cast_to_int K64 tout
+                      (elem_f K64 (fconv K64 (s_slope sc)) fzero q_mn q_mx nf (fconv K64 x)))) xs
+       /\ forall x, fin K64 x -> (Rabs (B2R (sf2b K64 x) / s) <= bpow radix2 52)%R ->
+            let y := frint K64 (scale_w K64 (fconv K64 (s_slope sc)) fzero (fconv K64 x)) in
+            fle K64 q_mn y = true -> fle K64 y q_mx = true ->
+            let k := ZnearestE (RN64 (B2R (sf2b K64 x) / s)) in
+            let r := snd (read_elem t' K64 (fconv K64 (s_slope sc)) fzero k) in
+            cast_to_int K64 tout (elem_f K64 (fconv K64 (s_slope sc)) fzero q_mn q_mx nf (fconv K64 x)) = (k, false)
+            /\ (Rabs (B2R (sf2b K64 r) - B2R (sf2b K64 x))
+                <= Rabs s * / 2 + Rabs (B2R (sf2b K64 x)) * bpow radix2 (-52) + Rabs s * bpow radix2 (-52))%R.
+Proof. exact spm_array_gap. Qed.
+Print Assumptions C02_array_gap_slope_only.
+
+(* S-C02c, exactly.  The relative-error argument for the stored slope/intercept
+   (C02_setter_rounding: |RN32(S) - S| <= 2^-24 |S|) holds for ideal magnitudes >= 2^-126, the
+   smallest normal float32, and for no smaller bound: below it only the absolute error 2^-150 is
+   guaranteed.  REFUTED below 2^-126 by this witness (vm_compute on the exact float model):
+   float32 data [13110, -31433, 54936] * 2^-149 as int16 get the stored slope 2^-149 (the ideal
+   slope is about 1.32 * 2^-149) and intercept 11752 * 2^-149; the second element is clipped to
+   -32768 and reloads 10417 steps away from its value. *)
+Theorem C02_subnormal_slope_refuted :
+  writer_write WSlopeInter
+    (InF K32 [S754_finite false 13110 (-149); S754_finite true 31433 (-149); S754_finite false 54936 (-149)])
+    ity_int16
+  = Ok (mkScaling (S754_finite false 1 (-149)) (S754_finite false 11752 (-149)) false,
+        mkWout [1358; -32768; 32767] false)
+  /\ Z.abs ((-32768) * 1 + 11752 - (-31433)) = 10417.
+Proof. exact subnormal_slope_witness. Qed.
+Print Assumptions C02_subnormal_slope_refuted.
+
 (* C02_float_gap (GENERAL STATEMENT, NOT PROVED; listed in evidence `unproved_statements`): for the
    exact float pipeline (ModelF.writer_write then apply_read_scaling), every finite element
    reloads within |slope|/2 + (|inter| + max|x|) * 2^-22 + |slope| * 2^-20 of its value unless the
@@ -404,18 +479,21 @@ Print Assumptions C02_setter_rounding.
    C02_setter_rounding; C02_read_error_real, C02_float_gap_real_partial (rounding-operator level).
    Still missing, exactly:
    (1) the float32 and longdouble WORKING formats (float32 / float16 / 8- and 16-bit integer data;
-       overflow fallback): (a)-(d) are proved for the binary64 working format only; the float32
-       reload of SPM99 is not analysed;
+       overflow fallback): (a)-(d) and the array lift are proved for the binary64 working format
+       only; the float32 reload of SPM99 is not analysed;
    (2) (c) with the ulp terms turned into an explicit allowance (|x| + |i| + |s|) * c * 2^-52
-       (cancellation in x - i makes the bound relative to |x| + |i|, not to |x - i|);
-   (3) the lift from one element to writer_write/apply_read_scaling on whole arrays: that
-       array_to_file picks binary64, that q_mn/q_mx are the clip bounds of the theorem and that
-       the no-overflow guards hold for every element between the finite minimum and maximum;
-       exactness/rounding of 64-bit integer elements (|x| >= 2^53) on the way in;
-   (4) which elements are inside the clip range: from C02_setter_rounding (relative error 2^-24 of
-       the stored slope/intercept against the ideal values of _range_scale) the overshoot of
-       the extreme elements beyond the integer range is at most about 2^-24 * 2^nbits steps for a
-       normal slope, unbounded in steps for a subnormal one -- not derived formally;
+       (cancellation in x - i makes the bound relative to |x| + |i|, not to |x - i|), and the
+       corresponding harness predicate;
+   (3) done for float64 arrays on the SPM path (C02_array_lift, C02_array_gap_slope_only); not
+       done: the NIfTI path with intercept 0 (same lift through WSlopeInter), arrays containing
+       NaN/inf together with the lift (the per-element theorems allow them), 32/64-bit integer
+       arrays (|x| >= 2^53 round on the way in), and the derivation of the guard |x/s| <= 2^52
+       from the data through the slope formula of _range_scale (longdouble division then
+       C02_setter_rounding) for slopes in float32's normal range;
+   (4) which elements are inside the clip range: from C02_setter_rounding the overshoot of the
+       extreme elements beyond the integer range is at most about 2^-23 * 2^nbits steps for a
+       normal slope (not derived formally), unbounded for a subnormal one
+       (C02_subnormal_slope_refuted);
    (5) the comparison of the proved allowances with the harness allowance
        (|inter| + max|x|) * 2^-22 + |slope| * 2^-20 outside regime (b).
    The gap is measured instead: the float layer is compared bit for bit with the implementation
